@@ -109,7 +109,9 @@ def seq_decode(it, v, args, kwargs, node):
     else:
         try:
             return lit(v.lit_value().decode(name))
-        except (UnicodeError, LookupError):
+        except LookupError:
+            raise Raised(ExcV(LookupError, [], node=node, stack=it.stack, op=f'decode: unknown encoding {name!r}', definite=True))
+        except UnicodeError:
             raise Raised(ExcV(UnicodeDecodeError, [], node=node, stack=it.stack, op='decode', definite=True))
     r = seqops.normalise(it, 'str', _conv_segs(it, v, 'str', name), v.tags)
     r.codec = codec
@@ -126,7 +128,9 @@ def seq_encode(it, v, args, kwargs, node):
     if v.is_lit() and name is not None:
         try:
             return lit(v.lit_value().encode(name))
-        except (UnicodeError, LookupError):
+        except LookupError:
+            raise Raised(ExcV(LookupError, [], node=node, stack=it.stack, op=f'encode: unknown encoding {name!r}', definite=True))
+        except UnicodeError:
             raise Raised(ExcV(UnicodeEncodeError, [], node=node, stack=it.stack, op='encode', definite=True))
     it.may_raise(UnicodeEncodeError, node, f'encode({codec!r})', wire='wire' in value_tags(v))
     r = seqops.normalise(it, 'bytes', _conv_segs(it, v, 'bytes', name), v.tags)
